@@ -32,7 +32,7 @@ func (x *Ctx) roundTrip(in string, p interface{}, empty types.Object) (obj types
 	q = x.T.New()
 	out = x.CopyFrom(obj, q)
 	if out.Panic != nil {
-		x.Violate(panicFP("CopyFrom", out)+"/"+x.nilEmbedClass(p), in, "CopyFrom panicked on CopyTo's output", map[string]interface{}{"panic": panicDetail(out), "struct": x.DumpStruct(p, dumpOpt{})})
+		x.Violate(panicFP("CopyFrom", out)+"/"+x.embedTypeClass(), in, "CopyFrom panicked on CopyTo's output", map[string]interface{}{"panic": panicDetail(out), "struct": x.DumpStruct(p, dumpOpt{})})
 		return obj, nil, false
 	}
 	if e := out.errs(); len(e) > 0 {
